@@ -22,12 +22,13 @@ from .. import core
 
 PID = "C02"
 THEOREMS = [
-    "rot_second_coord", "diag_point_neutral", "wasserstein_correct", "weak_duality",
-    "wass_enclosure_sound", "wasserstein_infinite_deaths_ignored", "wasserstein_vs_empty",
-    "wasserstein_matching_cert", "matching_flag_irrelevant",
+    "rot_second_coord", "diag_point_neutral", "placeholder_neutral", "wasserstein_against_diagonal_points",
+    "diagonal_point_is_neutral", "wasserstein_correct", "wasserstein_oracle_independent", "wasserstein_value", "wasserstein_infinite_deaths_ignored", "wasserstein_vs_empty", "weak_duality",
+    "sqrt_enclosure_sound", "wass_enclosure_sound",
+    "matching_flag_irrelevant", "wasserstein_matching_cert",      # shared with C06 (Wasserstein half)
 ]
 RULE = ("seeded generator over classes {both empty, one side empty, repeated points (within and across "
-        "diagrams), diagonal points, infinite/nan deaths, Pythagorean offsets (all point-point costs rational), "
+        "diagrams), identical multisets in another order at offsets up to 1e5, diagonal points, infinite/nan deaths, Pythagorean offsets (all point-point costs rational), "
         "mixed (optimal matching uses cross and diagonal pairings), dyadic grid, random doubles, scale 2^+-20}; "
         "sizes 0-6 per side (quick), up to 25 (thorough); a case is non-trivial when the call succeeds and either "
         "the optimal matching found independently pairs at least one point across and sends at least one point to "
@@ -124,6 +125,15 @@ def _case(rng, cls, nmax):
         if rng.random() < 0.3:
             T = [list(p) for p in S]
             rng.shuffle(T)
+    elif cls == "identical":
+        # the same multiset in another order (value 0), at an offset that makes |x|^2 large against |x-y|^2
+        off = rng.choice([0.0, 10.0, 1e3, 1e5])
+        S = [[a + off, b + off] for a, b in (S or _dgm(rng, 2, "rand"))]
+        T = [list(p) for p in S]
+        rng.shuffle(T)
+        if rng.random() < 0.5 and T:
+            j = rng.randrange(len(T))
+            T[j] = [T[j][0] + rng.uniform(-1e-3, 1e-3), T[j][1] + 1e-3 + rng.uniform(0, 1e-3)]
     elif cls == "diagonal":
         for _ in range(rng.randint(1, 3)):
             x = rng.randint(-8, 24) / 4.0 if kind == "grid" else rng.uniform(-5, 5)
@@ -167,17 +177,41 @@ def _case(rng, cls, nmax):
         k = rng.choice([2.0 ** 20, 2.0 ** -20, 1e6, 1e-6, 2.0 ** 10])
         S = [[a * k, b * k] for a, b in S]
         T = [[a * k, b * k] for a, b in T]
+    elif cls == "repaired":
+        # same multiset of births and same multiset of deaths, paired differently
+        k = max(2, m)
+        bs = sorted(rng.randint(-8, 8) / 4.0 for _ in range(k))
+        ds = [max(bs) + rng.randint(0, 16) / 4.0 for _ in range(k)]
+        p1, p2 = ds[:], ds[:]
+        rng.shuffle(p1)
+        rng.shuffle(p2)
+        S = [[b, d] for b, d in zip(bs, p1)]
+        T = [[b, d] for b, d in zip(bs, p2)]
+        rng.shuffle(T)
+    elif cls == "straddle":
+        # births below zero, deaths above, persistence large against the coordinates
+        def sp():
+            a = rng.choice([rng.uniform(2.5, 50), float(rng.randint(3, 40))])
+            return [-a + rng.uniform(-.2, .2) * (kind == "rand"), a + rng.uniform(-.2, .2) * (kind == "rand")]
+        S = [sp() for _ in range(max(1, m))]
+        T = [sp() for _ in range(n)] if rng.random() < 0.6 else []
+        if rng.random() < 0.5:
+            S, T = T, S
     elif cls == "malformed":
         # births above deaths: negative diagonal cost in code and spec alike
         for dg in (S, T):
             for p in dg:
                 if rng.random() < 0.3:
                     p[0], p[1] = p[1], p[0]
-    return {"cls": cls, "S": S, "T": T, "as_list": rng.random() < 0.25}
+    case = {"cls": cls, "S": S, "T": T, "as_list": rng.random() < 0.25}
+    if all(not _is_nonfinite(d) and float(b).is_integer() and float(d).is_integer() and abs(b) < 2 ** 40 and abs(d) < 2 ** 40
+           for dg in (S, T) for b, d in dg) and rng.random() < 0.5:
+        case["as_int"] = True        # integer dtype arrays / lists of Python ints
+    return case
 
 
-CLASSES = ["both_empty", "one_empty", "repeated", "diagonal", "infinite", "pythagorean", "mixed", "mixed",
-           "scale", "plain", "plain", "malformed"]
+CLASSES = ["both_empty", "one_empty", "repeated", "identical", "diagonal", "infinite", "pythagorean", "mixed", "mixed",
+           "scale", "plain", "plain", "malformed", "repaired", "straddle"]
 
 
 def generate(rng, tier):
@@ -199,9 +233,7 @@ def search_generate(rng, n):
 
 def corpus():
     cs = [
-        # sklearn's expanded |x-y|^2 gave 1.19e-7 for this diagram against itself (fixed: cdist)
-        {"S": [[3.4174483227409596, 6.109902424495788]], "T": [[3.4174483227409596, 6.109902424495788]]},
-        {"S": [[2467828.134595477, 5549158.177098255]], "T": [[2467828.134595477, 5549158.177098255]]},
+        # (the witnesses of the repaired sklearn-cancellation defect live in corpus/C02/*.json)
         {"S": [], "T": []},
         {"S": [[0.0, 1.0]], "T": []},
         {"S": [], "T": [[-3.0, -1.0], [2.0, 2.0]]},
@@ -215,6 +247,12 @@ def corpus():
     ]
     for c in cs:
         c["as_list"] = False
+    import json
+    d = core.VERIF / "corpus" / PID
+    if d.is_dir():
+        for f in sorted(d.glob("*.json")):
+            j = json.loads(f.read_text())
+            cs.append({"S": j["S"], "T": j["T"], "as_list": bool(j.get("as_list", False))})
     return cs
 
 
@@ -244,6 +282,10 @@ def impl_run(cases):
     try:
         for c in cases:
             def arr(dg):
+                if c.get("as_int") and all(not _is_nonfinite(d) and float(b).is_integer() and float(d).is_integer()
+                                           for b, d in dg):
+                    vals = [[int(b), int(d)] for b, d in dg]
+                    return vals if c.get("as_list") else (np.array(vals, dtype=np.int64).reshape(-1, 2) if dg else np.array([], dtype=np.int64))
                 if c.get("as_list"):
                     return [[_f(b), _f(d)] for b, d in dg]
                 return np.array([[_f(b), _f(d)] for b, d in dg], dtype=float).reshape(-1, 2) if dg else np.array([])
@@ -476,7 +518,7 @@ def predicate(c, o):
     return True, ""
 
 
-EDGE = ("both_empty", "one_empty", "repeated", "diagonal", "infinite")
+EDGE = ("both_empty", "one_empty", "repeated", "identical", "diagonal", "infinite")
 
 
 def nontrivial(c, o):
@@ -611,9 +653,13 @@ def check_term(c, o):
     if "error" in o or not math.isfinite(o.get("dist", float("nan"))):
         return None
     sigma, u, v = certificates(c)
-    return "check_case %d%%positive %s %s %s %s %s %s %s" % (
+    w = o.get("warn")
+    if w is None:        # warnings not observed: compare the value only
+        w = [any(_is_nonfinite(x[1]) for x in c["S"]), any(_is_nonfinite(x[1]) for x in c["T"])]
+    return "check_full %d%%positive %s %s %s %s %s %s %s %s %s" % (
         PREC, _coq_dgm(c["S"]), _coq_dgm(c["T"]), _coq_nats(sigma), _coq_qs(u), _coq_qs(v),
-        core.coq_Q(Fraction(o["dist"])), core.coq_Q(tol_of(c)))
+        core.coq_Q(Fraction(o["dist"])), core.coq_Q(tol_of(c)),
+        "true" if w[0] else "false", "true" if w[1] else "false")
 
 
 def cert_term(c, o):
@@ -649,6 +695,8 @@ def coq_judge(cases, outs, results):
         elif t == "Disagree":
             verdicts[i] = "disagree:value %r outside the certified enclosure of the model (tol %.3g)" % (
                 outs[i]["dist"], float(tol_of(cases[i])))
+        elif t == "WarnMismatch":
+            verdicts[i] = "disagree:non-finite-death warnings %s differ from the model's" % (outs[i].get("warn"),)
         elif t == "SkipCert":
             verdicts[i] = "skip:certificate rejected by the Coq checker"
         elif t == "SkipGap":
@@ -682,10 +730,11 @@ def shrink_candidates(c):
             d = dict(c)
             d[key] = c[key][:i] + c[key][i + 1:]
             yield d
-    if c.get("as_list"):
-        d = dict(c)
-        d["as_list"] = False
-        yield d
+    for key in ("as_list", "as_int"):
+        if c.get(key):
+            d = dict(c)
+            d[key] = False
+            yield d
     for digits in (0, 1, 2, 4):
         d = dict(c)
         d["S"] = [[round(b, digits), (x if _is_nonfinite(x) else round(x, digits))] for b, x in c["S"]]
